@@ -326,7 +326,8 @@ func appendData[T any](a, b map[string][]T, aLen, bLen int, nilVal func() T) map
 	finalData := make(map[string][]T)
 
 	for atr, data := range a {
-		finalData[atr] = data
+		// cap the capacity so appending never writes into storage shared with a
+		finalData[atr] = data[:len(data):len(data)]
 
 		if _, ok := b[atr]; !ok {
 			for i := 0; i < bLen; i++ {
@@ -359,8 +360,9 @@ func (m Mesh) Append(other Mesh) Mesh {
 	finalV3Data := appendData(m.v3Data, other.v3Data, mAtrLength, oAtrLength, func() vector3.Vector[float64] { return vector3.Zero[float64]() })
 	finalV4Data := appendData(m.v4Data, other.v4Data, mAtrLength, oAtrLength, func() vector4.Vector[float64] { return vector4.Zero[float64]() })
 
-	finalTris := append(m.indices, other.indices...)
-	finalMaterials := append(m.materials, other.materials...)
+	// cap the capacities so appending never writes into storage shared with m
+	finalTris := append(m.indices[:len(m.indices):len(m.indices)], other.indices...)
+	finalMaterials := append(m.materials[:len(m.materials):len(m.materials)], other.materials...)
 	for i := len(m.indices); i < len(finalTris); i++ {
 		finalTris[i] += mAtrLength
 	}
